@@ -7,7 +7,6 @@ package flight12
 //symgo:outside histories of several connections on one store (the lookup is a pure function of the store content at the time of the ClientHello, which is arbitrary here)
 
 import (
-	dtlsconfig "github.com/pion/dtls/v3/internal/config"
 	"github.com/pion/dtls/v3/pkg/protocol/alert"
 )
 
@@ -112,4 +111,3 @@ func zzResumeLookup() {
 	}
 }
 
-var _ = dtlsconfig.DisableExtendedMasterSecret
